@@ -962,9 +962,17 @@ class Interp:
             b = self.ev(e[3], act)
             if op == "is":
                 self.stats["is_tests"] += 1
-                if not (isinstance(a, Obj) and isinstance(b, Obj)):
-                    raise Discard("`is` on non-objects")
-                return a is b
+                if isinstance(a, Obj) and isinstance(b, Obj):
+                    return a is b
+                if isinstance(a, ListVal) and isinstance(b, ListVal):
+                    if a is not b and not a.items and not b.items:
+                        # two distinct EMPTY lists compare `is`-identical in the implementation (the identity of a
+                        # list is its buffer address); out of the modelled subset
+                        raise Discard("`is` on two distinct empty lists")
+                    return a is b
+                if isinstance(a, MapVal) and isinstance(b, MapVal):
+                    return a is b
+                raise Discard("`is` on non-references")
             return self.binop(op, a, b)
         if k == "not":
             return not self.ev(e[1], act)
@@ -1305,16 +1313,20 @@ def ind(lines, n=1):
 class Handle:
     """A callable bound to a module-level name."""
 
-    def __init__(self, name, sig, role, pure, origin, captures_var=True):
+    def __init__(self, name, sig, role, pure, origin, captures_var=True, const=False):
         # sig: 'r:int' 'r:str' 'r:bool' 'r:list' (fn() -> T) | 'w' (fn(int) -> int)
         self.name, self.sig, self.role, self.pure, self.origin, self.captures_var = name, sig, role, pure, origin, captures_var
+        self.const = const
 
 
 class G07:
     def __init__(self, rng, avoid=()):
         """avoid: names of the avoidance rules in force: opassign_escaped, dotcall_arg, reassign_target,
-        modify_type_refinement"""
+        modify_type_refinement, caller_local_shadow.  Unless `caller_local_shadow` is in force the worlds use
+        SAME-NAMED bindings on purpose: locals that shadow a captured name before closures are created over them,
+        caller locals / parameters / block locals / loop counters named like the callee's captured variable."""
         self.avoid = set(avoid)
+        self.same_names = "caller_local_shadow" not in self.avoid
         allow_opassign_escaped = "opassign_escaped" not in self.avoid
         self.r = rng
         self.n = 0
@@ -1713,7 +1725,7 @@ class G07:
             else:
                 self.decl += ["const %s = %s" % (name, lines[0])] + lines[1:]
                 self.features.add("def:const")
-            self.handles.append(Handle(name, sig, role, role == "reader", "module"))
+            self.handles.append(Handle(name, sig, role, role == "reader", "module", const=form >= 0.85))
         if r.random() < 0.5:
             self.plain_function()
         if r.random() < 0.4:
@@ -1828,7 +1840,7 @@ class G07:
     # ---- factories
     def factory(self, in_method=False):
         r = self.r
-        shape = r.choice(["pack", "pack", "pack", "single", "nested", "looplist", "block"])
+        shape = r.choice(["pack", "pack", "pack", "single", "single", "nested", "looplist", "block"])
         name = self.fresh("mk")
         params = [(self.fresh("pa"), "int") for _ in range(r.randint(0, 2))]
         locs = []
@@ -1921,7 +1933,11 @@ class G07:
             mp = self.fresh("pb")
             mloc = self.fresh("fv")
             mbody = ["%s = %s + %s" % (mloc, mp, locs[0][0] if locs[0][1] == "int" else "1")]
-            if locs[0][1] == "int" and r.random() < 0.6:
+            if locs[0][1] == "int" and self.same_names and r.random() < 0.35:
+                # the middle function shadows the factory's variable before creating the inner closures
+                mbody.append("%s = %s + 10" % (locs[0][0], locs[0][0]))
+                self.features.add("factory:nested:mid_shadow")
+            elif locs[0][1] == "int" and r.random() < 0.6:
                 mbody.append("modify %s = %s + 1" % (locs[0][0], locs[0][0]))
             pool2 = pool + [(mloc, "int"), (mp, "int")]
             probe = self.fresh("rd")
@@ -2036,6 +2052,94 @@ class G07:
         self.kobjs = objs
         self.features.add("world:method")
 
+    # ---- same-named bindings (only while run-time lookup is lexical, see `same_names`)
+    def shadow_helpers(self):
+        """Higher-order helpers whose own local / parameter / loop counter / block local is NAMED LIKE a module
+        variable that the closures they call have captured."""
+        r = self.r
+        ints = [v for v in self.mvars if v[1] == "int"]
+        if not ints:
+            return
+        gv = r.choice(ints)[0]
+        self.shadow_gv = gv
+        f = self.fresh
+        if r.random() < 0.7:
+            n, fa = f("apS"), f("fa")
+            self.decl += ["%s = fn(%s: fn() -> int) -> int {" % (n, fa), "  %s = 999" % gv, "  return %s() + %s - 999" % (fa, gv), "}"]
+            self.shadow_ap0.append(n)
+            self.features.add("same_name:caller_local")
+        if r.random() < 0.7:
+            n, fa = f("apP"), f("fa")
+            self.decl += ["%s = fn(%s: fn(int) -> int, %s: int) -> int {" % (n, fa, gv), "  return %s(%s) + %s" % (fa, gv, gv), "}"]
+            self.shadow_ap1.append(n)
+            self.features.add("same_name:caller_parameter")
+        if r.random() < 0.7:
+            n, fa, rr = f("apB"), f("fa"), f("rr")
+            self.decl += ["%s = fn(%s: fn() -> int) -> int {" % (n, fa), "  %s = 0" % rr, "  from 0 to 2, %s {" % gv,
+                          "    %s = %s + %s() + %s" % (rr, rr, fa, gv), "  }", "  if %s > -100000 {" % rr, "    %s = 50" % gv,
+                          "    %s = %s + %s() * 3 + %s" % (rr, rr, fa, gv), "  }", "  return %s" % rr, "}"]
+            self.shadow_ap0.append(n)
+            self.features.add("same_name:caller_loop_counter_and_block_local")
+        if r.random() < 0.5:
+            n, fa, d = f("apW"), f("fa"), f("d")
+            self.decl += ["%s = fn(%s: fn(int) -> int, %s: int) -> int {" % (n, fa, d), "  %s = %s" % (gv, d), "  %s = %s + 1" % (gv, gv),
+                          "  return %s(%s) * 1000 + %s" % (fa, gv, gv), "}"]
+            self.shadow_ap1.append(n)
+            self.features.add("same_name:caller_local_written")
+
+    def shadow_factory(self):
+        """A factory that reads a captured variable, binds a SAME-NAMED plain local and then creates closures over
+        that local: they must see the local (one fresh cell per activation), never the outer variable."""
+        r = self.r
+        ints = [v for v in self.mvars if v[1] == "int"]
+        if not ints:
+            return
+        gv = r.choice(ints)[0]
+        name = self.fresh("mk")
+        pa = self.fresh("pa")
+        c = r.randrange(4)
+        self.features.add("factory:shadow:%d" % c)
+        if c == 0:
+            body = ["%s = %s + %s" % (gv, gv, pa)]
+        elif c == 1:
+            body = ["%s = %s * 0 + %s" % (gv, gv, pa)]
+        elif c == 2:
+            tv = self.fresh("tv")
+            body = ["%s = %s" % (tv, gv), "%s = %s + %s + 1" % (gv, tv, pa)]
+        else:
+            tk = self.fresh("tk")
+            body = ["%s = %s > -100000" % (tk, gv), "%s = %s" % (gv, pa), "if %s {" % tk, "  %s = %s + 100" % (gv, gv), "}"]
+        probe = self.fresh("rd")
+        lines, sig = self.reader([(gv, "int")], direct_ok=False)
+        body += self.bind(probe, lines)
+        wn = self.fresh("wr")
+        role = r.choice(["writer", "writer", "opassigner" if self.allow_opassign_escaped else "writer"])
+        lines, _ = self.product(role, [(gv, "int")], [probe])
+        body += self.bind(wn, lines)
+        if r.random() < 0.4:
+            body.append("%s = %s + 1" % (gv, gv))
+        body.append("return [%s, %s]" % (probe, wn))
+        self.decl += ["%s = fn(%s: int) -> [fn() -> int, fn(int) -> int] {" % (name, pa)] + ind(body) + ["}"]
+        self.factories.append({"name": name, "params": [(pa, "int")], "shape": "pack", "in_method": False,
+                               "products": [("r:int", "reader", True), ("w", role, False)],
+                               "ret": "[fn() -> int, fn(int) -> int]"})
+
+    def run_function(self):
+        """A function that re-assigns a local closure variable from a second call of the same factory."""
+        r = self.r
+        cands = [f for f in self.factories if f["shape"] == "single" and not f["in_method"] and f["products"][0][0] == "w"]
+        if not cands:
+            return
+        fac = r.choice(cands)
+        name, pr, st, f1 = self.fresh("run"), self.fresh("pr"), self.fresh("st"), self.fresh("f")
+
+        def call():
+            return "%s(%s)" % (fac["name"], ", ".join(str(r.randint(0, 9)) for _ in fac["params"]))
+        self.decl += ["%s = fn(%s: int) -> int {" % (name, pr), "  %s = %s" % (st, call()), "  %s = %s(%s)" % (f1, st, pr),
+                      "  %s = %s" % (st, call()), "  return %s * 1000 + %s(%s) + %s(1)" % (f1, st, pr, st), "}"]
+        self.run_fn = name
+        self.features.add("def:rebind_in_function")
+
     # ---- instances
     def instantiate(self, fac):
         """Lines creating one more instance of `fac` at module level + the new handles."""
@@ -2081,7 +2185,11 @@ class G07:
         self.kobjs = []
         self.kcb = None
         self.apg = None
+        self.run_fn = None
+        self.shadow_ap0, self.shadow_ap1 = [], []
         self.module_world()
+        if self.same_names:
+            self.shadow_helpers()
         gvs = [v for v in self.mvars if v[1] == "int"]
         if gvs and r.random() < 0.5:
             # a higher-order helper that is itself a closure over a module variable
@@ -2091,6 +2199,10 @@ class G07:
             self.features.add("def:closure_helper")
         for _ in range(r.choice([0, 1, 1, 2, 2])):
             self.factory()
+        if self.same_names and r.random() < 0.5:
+            self.shadow_factory()
+        if r.random() < 0.5:
+            self.run_function()
         if r.random() < 0.35:
             self.method_world()
         # one initial instance of every factory so that the history has something to call
@@ -2118,7 +2230,17 @@ class G07:
         rints = [h for h in self.handles if h.sig == "r:int"]
         for _ in range(20):
             c = r.random()
-            if c < 0.12:
+            if c < 0.05:
+                out = self.rebind_step(ws, rs)
+                if out:
+                    return out
+                continue
+            if c < 0.08:
+                out = self.equal_reassign_step()
+                if out:
+                    return out
+                continue
+            if c < 0.14:
                 name, t = r.choice(self.mvars)
                 if t == "obj" and r.random() < 0.5:
                     return "owner_field_write", ["%s.hz = %d" % (name, r.randint(0, 9))]
@@ -2137,6 +2259,17 @@ class G07:
                 h = r.choice(rs)
                 return "call_reader", ["print %s()" % h.name]
             if c < 0.74:
+                if r.random() < 0.35:
+                    opts = []
+                    if self.shadow_ap0 and rints:
+                        opts.append(("call_via_same_name", "print %s(%s)" % (r.choice(self.shadow_ap0), r.choice(rints).name)))
+                    if self.shadow_ap1 and ws:
+                        opts.append(("call_via_same_name", "print %s(%s, %d)" % (r.choice(self.shadow_ap1), r.choice(ws).name, r.randint(0, 5))))
+                    if self.run_fn:
+                        opts.append(("call_rebind_in_function", "print %s(%d)" % (self.run_fn, r.randint(0, 5))))
+                    if opts:
+                        k, l = r.choice(opts)
+                        return k, [l]
                 k = r.randrange(5)
                 if k == 0 and rints:
                     return "call_via", ["print ap0(%s)" % r.choice(rints).name]
@@ -2171,6 +2304,49 @@ class G07:
             if self.method_writer and self.kobjs:
                 return "call_method", ["print %s.%s(%d)" % (r.choice(self.kobjs), self.method_writer, r.randint(0, 4))]
         return "call_reader", ["print idf(1)"]
+
+    def rebind_step(self, ws, rs):
+        """Re-assign an EXISTING closure variable: from another closure of the same signature (often made by another
+        activation of the same factory literal) or from a fresh factory call."""
+        r = self.r
+        pool = r.choice([ws, rs])
+        targets = [h for h in pool if not h.const]
+        if not targets:
+            return None
+        a = r.choice(targets)
+        singles = [f for f in self.factories if f["shape"] == "single" and f["products"][0][0] == a.sig]
+        if singles and r.random() < 0.7:
+            fac = r.choice(singles)
+            args = ", ".join(str(r.randint(0, 9)) for _ in fac["params"])
+            call = "%s.%s(%s)" % (r.choice(fac["objs"]), fac["name"], args) if fac["in_method"] else "%s(%s)" % (fac["name"], args)
+            sig, role, pure = fac["products"][0]
+            a.role, a.pure, a.origin, a.captures_var = role, pure, "factory", True
+            return "rebind_closure_fresh_call", ["%s = %s" % (a.name, call)]
+        same = [h for h in pool if h.sig == a.sig and h.name != a.name]
+        # prefer a closure made by another activation of the same factory (same code, other cells)
+        pref = [h for h in same if h.origin == a.origin and h.role == a.role]
+        b = r.choice(pref or same) if (pref or same) else None
+        if b is None:
+            return None
+        a.role, a.pure, a.origin, a.captures_var = b.role, b.pure, b.origin, b.captures_var
+        return "rebind_closure", ["%s = %s" % (a.name, b.name)]
+
+    def equal_reassign_step(self):
+        """Owner re-assigns a variable with an equal-looking value: the same int, or a DIFFERENT list with the same
+        contents (afterwards the new list is mutated: the variable must show it)."""
+        r = self.r
+        lists = [v for v in self.mvars if v[1] == "list"]
+        ints = [v for v in self.mvars if v[1] == "int"]
+        if lists and r.random() < 0.85:
+            gl = r.choice(lists)[0]
+            nl, it, el = self.fresh("nl"), self.fresh("it"), self.fresh("el")
+            return "owner_assign_equal_list", ["%s: [int...] = []" % nl, "from 0 to %s.len(), %s {" % (gl, it),
+                                               "  %s = %s[%s]" % (el, gl, it), "  %s.push(%s)" % (nl, el), "}",
+                                               "%s = %s" % (gl, nl), "%s.push(%d)" % (nl, r.randint(0, 9))]
+        if ints:
+            gv = r.choice(ints)[0]
+            return "owner_assign_equal_int", [r.choice(["%s = idf(%s)" % (gv, gv), "%s = %s + 0" % (gv, gv)])]
+        return None
 
     def case(self, max_steps=12):
         self.world()
